@@ -135,6 +135,9 @@ def _s(file, fns, ep):
     for f in fns: SAMPLED[file + ':' + f] = ep
 _s('auth/api/iam/openid4vp.go', ['Wrapper.getClientMetadataFromRequest', 'Wrapper.getPresentationDefinitionFromRequest'], 'iam.handleAuthorizeRequestFromVerifier')
 _s('auth/client/iam/client.go', ['HTTPClient.PresentationDefinition', 'checkNoNullEntries'], 'iamclient.PresentationDefinition')
+_s('vcr/pe/presentation_definition.go', ['PresentationDefinition.Match', 'PresentationDefinition.matchBasic', 'PresentationDefinition.matchSubmissionRequirements'], 'pe.match+validate (parallel-array invariant of Match; the PE model is C12)')
+_s('vcr/pe/presentation_submission.go', ['PresentationSubmission.Validate', 'PresentationSubmission.Resolve', 'PresentationSubmissionBuilder.Build'], 'pe.match+validate')
+_s('discovery/module.go', ['Module.Search'], 'pe.match+validate (the indexing loop of Search is replayed on Match results; the discovery model is C16)')
 _s('vcr/revocation/statuslist2021_verifier.go', ['StatusList2021.Verify', 'StatusList2021.statusList', 'StatusList2021.update', 'StatusList2021.download', 'StatusList2021.verify', 'StatusList2021.validate'], 'revocation.Verify / revocation.statusListCredential')
 _s('vcr/revocation/bitstring.go', ['bitstring.Scan', 'expand'], 'revocation.bitstring.Scan / revocation.statusListCredential')
 _s('vdr/didkey/resolver.go', ['Resolver.Resolve', 'unmarshalEC'], 'didkey.Resolve')
@@ -147,6 +150,9 @@ _s('vcr/verifier/verifier.go', ['verifier.Verify', 'verifier.doVerifyVP'], 'veri
 _s('crypto/jwx.go', ['JWTKidAlg', 'ParseJWT', 'ParseJWS'], 'crypto.ParseJWT')
 _s('jsonld/ldutils.go', ['LDUtil.Canonicalize'], 'verifier.VerifyVP')
 _s('vdr/didnuts/validators.go', ['verificationMethodValidator.Validate', 'verificationMethodValidator.verifyThumbprint'], 'didnuts.validate+findKeyByThumbprint')
+_s('vdr/didnuts/ambassador.go', ['ambassador.callback'], 'didnuts.validate+findKeyByThumbprint (guard + unmarshal + validator as in callback)')
+_s('vdr/didnuts/validators.go', ['nilEntryValidator.Validate', 'NetworkDocumentValidator'], 'didnuts.validate+findKeyByThumbprint')
+_s('vdr/resolver/nullentries.go', ['RejectNullKeyEntries'], 'didweb.Resolve / didnuts.validate+findKeyByThumbprint')
 _s('vdr/didnuts/ambassador.go', ['ambassador.findKeyByThumbprint'], 'didnuts.accepted-doc-then-findKeyByThumbprint')
 _s('network/transport/v2/handlers.go', ['protocol.Handle', 'protocol.handle', 'protocol.handleTransactionPayload', 'protocol.handleTransactionPayloadQuery', 'protocol.handleTransactionRangeQuery', 'protocol.handleGossip', 'protocol.handleTransactionListQuery', 'protocol.handleState', 'protocol.handleTransactionSet'], 'v2.Handle')
 
